@@ -213,3 +213,20 @@ def make_config(rng, cls, factory, matname, mode, pp, order, meshkind, low_quad=
         cost *= 1.3
     c["cost"] = float(cost)
     return c
+
+
+def mixed_materials(rng, names):
+    """One material spec per block for the multi-block factory with DIFFERENT materials.  names: list whose entries are a
+    hyperelastic/viscoelastic model name or a tuple ("j2", kinematics, hardening, rate).  Repeating a name gives the same
+    model with different (independently drawn, decades apart) constants."""
+    out = []
+    for n in names:
+        if isinstance(n, (tuple, list)):
+            out.append(j2_spec(rng, n[1], n[2], n[3]))
+        else:
+            out.append(material_spec(rng, n))
+    return out
+
+
+def mixed_cost(specs):
+    return 10.0 + 2.2 * sum(COST[m["name"]] for m in specs)
